@@ -149,6 +149,97 @@ var contexts = []context{
 		}
 		return p.Globals[0].Expression, true
 	}},
+	{"matcharm", split("fn main ( ) { match z { 1 =>"), split(", _ => 0 } ; }"), func(p ast.Program) (ast.Expression, bool) {
+		e, ok := mainStmtExpr(p, 0)
+		if !ok {
+			return nil, false
+		}
+		m, ok := e.(ast.MatchExpression)
+		if !ok || len(m.Arms) != 2 {
+			return nil, false
+		}
+		return m.Arms[0].Action, true
+	}},
+	{"matchctl", split("fn main ( ) { match"), split("{ } ; }"), func(p ast.Program) (ast.Expression, bool) {
+		e, ok := mainStmtExpr(p, 0)
+		if !ok {
+			return nil, false
+		}
+		m, ok := e.(ast.MatchExpression)
+		return m.ControlExpression, ok
+	}},
+	{"forin", split("fn main ( ) { for i in"), split("{ } }"), func(p ast.Program) (ast.Expression, bool) {
+		s, ok := mainStmt(p, 0)
+		if !ok {
+			return nil, false
+		}
+		f, ok := s.(ast.ForStatement)
+		return f.IterExpression, ok
+	}},
+	{"fnlit", split("fn main ( ) { let f = fn ( ) -> int {"), split("} ; }"), func(p ast.Program) (ast.Expression, bool) {
+		s, ok := mainStmt(p, 0)
+		if !ok {
+			return nil, false
+		}
+		l, ok := s.(ast.LetStatement)
+		if !ok {
+			return nil, false
+		}
+		f, ok := l.Expression.(ast.FunctionLiteralExpression)
+		if !ok || len(f.Body.Statements) != 0 {
+			return nil, false
+		}
+		return f.Body.Expression, f.Body.Expression != nil
+	}},
+	{"elseif", split("fn main ( ) { if z { } else if"), split("{ } ; }"), func(p ast.Program) (ast.Expression, bool) {
+		e, ok := mainStmtExpr(p, 0)
+		if !ok {
+			return nil, false
+		}
+		i, ok := e.(ast.IfExpression)
+		if !ok || i.ElseBlock == nil {
+			return nil, false
+		}
+		i2, ok := i.ElseBlock.Expression.(ast.IfExpression)
+		return i2.Condition, ok
+	}},
+	{"spawnarg", split("fn main ( ) { spawn f ("), split(") ; }"), func(p ast.Program) (ast.Expression, bool) {
+		e, ok := mainStmtExpr(p, 0)
+		if !ok {
+			return nil, false
+		}
+		c, ok := e.(ast.CallExpression)
+		if !ok || !c.IsSpawn || len(c.Arguments.List) != 1 {
+			return nil, false
+		}
+		return c.Arguments.List[0], true
+	}},
+	{"trigarg", split("fn main ( ) { trigger cb on ev ("), split(") ; }"), func(p ast.Program) (ast.Expression, bool) {
+		s, ok := mainStmt(p, 0)
+		if !ok {
+			return nil, false
+		}
+		t, ok := s.(ast.TriggerStatement)
+		if !ok || len(t.EventArguments.List) != 1 {
+			return nil, false
+		}
+		return t.EventArguments.List[0], true
+	}},
+	{"blocktail", split("fn main ( ) { let v = {"), split("} ; }"), func(p ast.Program) (ast.Expression, bool) {
+		s, ok := mainStmt(p, 0)
+		if !ok {
+			return nil, false
+		}
+		l, ok := s.(ast.LetStatement)
+		if !ok {
+			return nil, false
+		}
+		b, ok := l.Expression.(ast.BlockExpression)
+		if !ok || len(b.Block.Statements) != 0 {
+			return nil, false
+		}
+		return b.Block.Expression, b.Block.Expression != nil
+	}},
 }
 
 func ctxByName(name string) *context {
